@@ -23,50 +23,54 @@ Definition outcome_replies (o : outcome) : option (list reply) :=
   | OThrow | OBlocked => None
   end.
 
-Inductive serves (rfc : bool) : api -> list reaction -> list reply -> Prop :=
+Inductive serves (rfc : bool) (t : ttype) : api -> list reaction -> list reply -> Prop :=
 | sv_simple verb arg r x :
-    arg_ok arg -> simple_reaction r x -> serves rfc (ASimple verb arg) [r] [x]
-| sv_type t r x :
-    simple_reaction r x -> serves rfc (ASetType t) [r] [x]
+    arg_ok arg -> simple_reaction r x -> serves rfc t (ASimple verb arg) [r] [x]
+| sv_type t0 r x :
+    simple_reaction r x -> serves rfc t (ASetType t0) [r] [x]
+| sv_login u pw rs xs ex :
+    has_crlf u = false -> has_crlf pw = false -> simple_all rs xs ->
+    login_opt false t u pw xs = Some ex -> length ex = length xs ->
+    serves rfc t (ALogin u pw) rs (map snd ex)
 | sv_rename_refused a b r1 x1 :
     has_crlf a = false -> has_crlf b = false -> simple_reaction r1 x1 -> code x1 <> 350 ->
-    serves rfc (ARename a b) [r1] [x1]
+    serves rfc t (ARename a b) [r1] [x1]
 | sv_rename a b r1 r2 x1 x2 :
     has_crlf a = false -> has_crlf b = false -> simple_reaction r1 x1 -> code x1 = 350 -> simple_reaction r2 x2 ->
-    serves rfc (ARename a b) [r1; r2] [x1; x2]
+    serves rfc t (ARename a b) [r1; r2] [x1; x2]
 | sv_download path r1 r2 x1 x2 x3 ip port :
     has_crlf path = false -> simple_reaction r1 x1 -> is_negative x1 = false ->
     (if rfc then try_parse_epsv_reply (text x1) = Some port /\ ip = None
      else exists a, try_parse_pasv_reply (text x1) = Some (a, port) /\ ip = Some a) ->
     dp_reachable (r_data r1) = true -> accepts_transfer r2 x2 x3 -> dp_end (r_data r2) = DEof ->
-    serves rfc (ADownload path None None) [r1; r2] [x1; x2; x3]
+    serves rfc t (ADownload path None None) [r1; r2] [x1; x2; x3]
 | sv_upload u path chunks r1 r2 x1 x2 x3 ip port :
     has_crlf path = false -> simple_reaction r1 x1 -> is_negative x1 = false ->
     (if rfc then try_parse_epsv_reply (text x1) = Some port /\ ip = None
      else exists a, try_parse_pasv_reply (text x1) = Some (a, port) /\ ip = Some a) ->
     dp_reachable (r_data r1) = true -> accepts_transfer r2 x2 x3 ->
-    serves rfc (AUpload u path chunks None) [r1; r2] [x1; x2; x3]
+    serves rfc t (AUpload u path chunks None) [r1; r2] [x1; x2; x3]
 | sv_download_refused_at_setup path cb f r1 x1 :
     has_crlf path = false -> simple_reaction r1 x1 -> is_negative x1 = true ->
-    serves rfc (ADownload path cb f) [r1] [x1]
+    serves rfc t (ADownload path cb f) [r1] [x1]
 | sv_download_refused_at_command path cb f r1 r2 x1 x2 ip port :
     has_crlf path = false -> simple_reaction r1 x1 -> is_negative x1 = false ->
     (if rfc then try_parse_epsv_reply (text x1) = Some port /\ ip = None
      else exists a, try_parse_pasv_reply (text x1) = Some (a, port) /\ ip = Some a) ->
     dp_reachable (r_data r1) = true -> simple_reaction r2 x2 -> is_negative x2 = true ->
-    serves rfc (ADownload path cb f) [r1; r2] [x1; x2]
+    serves rfc t (ADownload path cb f) [r1; r2] [x1; x2]
 | sv_upload_refused_at_command u path chunks cb r1 r2 x1 x2 ip port :
     has_crlf path = false -> simple_reaction r1 x1 -> is_negative x1 = false ->
     (if rfc then try_parse_epsv_reply (text x1) = Some port /\ ip = None
      else exists a, try_parse_pasv_reply (text x1) = Some (a, port) /\ ip = Some a) ->
     dp_reachable (r_data r1) = true -> simple_reaction r2 x2 -> is_negative x2 = true ->
-    serves rfc (AUpload u path chunks cb) [r1; r2] [x1; x2]
+    serves rfc t (AUpload u path chunks cb) [r1; r2] [x1; x2]
 | sv_list path names r1 r2 x1 x2 x3 ip port :
     arg_ok path -> simple_reaction r1 x1 -> is_negative x1 = false ->
     (if rfc then try_parse_epsv_reply (text x1) = Some port /\ ip = None
      else exists a, try_parse_pasv_reply (text x1) = Some (a, port) /\ ip = Some a) ->
     dp_reachable (r_data r1) = true -> accepts_transfer r2 x2 x3 -> dp_end (r_data r2) = DEof ->
-    serves rfc (AList path names) [r1; r2] [x1; x2; x3]
+    serves rfc t (AList path names) [r1; r2] [x1; x2; x3]
 | sv_download_cancelled path answers r1 r2 r3 x1 x2 x4 x5 ip port :
     has_crlf path = false -> simple_reaction r1 x1 -> is_negative x1 = false ->
     (if rfc then try_parse_epsv_reply (text x1) = Some port /\ ip = None
@@ -76,15 +80,22 @@ Inductive serves (rfc : bool) : api -> list reaction -> list reply -> Prop :=
         data_recv t (mkSink None O) (dp_segs (r_data r2)) (dp_end (r_data r2)) (Some answers) = (ev, pr, Some answers') /\
         pr <> PThrow /\ poll answers' = (true, answers'')) ->
     r_now r3 = [RReply x4; RReply x5] -> r_on_close r3 = [] -> r_close_after r3 = false -> code x4 = 426 -> code x5 <> 421 ->
-    serves rfc (ADownload path (Some answers) None) [r1; r2; r3] [x1; x2; x4; x5].
+    serves rfc t (ADownload path (Some answers) None) [r1; r2; r3] [x1; x2; x4; x5].
 
-Lemma inv_after w w' c rest : Inv w (rest ++ []) \/ True ->
+(* the transfer type after a call: only an acknowledged TYPE changes it *)
+Definition next_type (t : ttype) (c : api) (xs : list reply) : ttype :=
+  match c, xs with
+  | ASetType t0, [x] => if is_positive x then t0 else t
+  | _, _ => t
+  end.
+
+Lemma inv_after w c rest :
   w_data w = None -> c_mode (w_cfg w) = Passive -> c_tls (w_cfg w) = false ->
   match c with ASetMode _ | ASetRfc2428 _ => False | _ => True end ->
-  snd (step w c) = w' -> insync w' rest ->
-  Inv w' rest /\ c_rfc2428 (w_cfg w') = c_rfc2428 (w_cfg w).
+  insync (snd (step w c)) rest ->
+  Inv (snd (step w c)) rest /\ c_rfc2428 (w_cfg (snd (step w c))) = c_rfc2428 (w_cfg w).
 Proof.
-  intros _ Hd Hm Ht Hc E Hi. subst w'.
+  intros Hd Hm Ht Hc Hi.
   pose proof (step_releases_data c w Hd) as D.
   pose proof (step_keeps_tls_config c w) as (K1 & _).
   pose proof (step_keeps_modes c w) as M.
@@ -92,69 +103,76 @@ Proof.
     (split; [split; [exact Hi|split; [exact D|split; [rewrite M1; exact Hm|rewrite K1; exact Ht]]]|exact M2]).
 Qed.
 
-(* one served call from a session in step: the outcome is as prescribed and the invariant is re-established *)
+(* one served call from a session in step: the replies handed back are as prescribed and the invariant is re-established *)
 Theorem served_step w c rs rest xs :
-  Inv w (rs ++ rest) -> serves (c_rfc2428 (w_cfg w)) c rs xs ->
-  outcome_replies (fst (step w c)) = Some xs /\ Inv (snd (step w c)) rest /\ c_rfc2428 (w_cfg (snd (step w c))) = c_rfc2428 (w_cfg w).
+  Inv w (rs ++ rest) -> serves (c_rfc2428 (w_cfg w)) (c_type (w_cfg w)) c rs xs ->
+  outcome_replies (fst (step w c)) = Some xs /\ Inv (snd (step w c)) rest /\
+  c_rfc2428 (w_cfg (snd (step w c))) = c_rfc2428 (w_cfg w) /\
+  c_type (w_cfg (snd (step w c))) = next_type (c_type (w_cfg w)) c xs.
 Proof.
   intros (Hi & Hd & Hm & Ht) S.
   assert (Fin : forall o w', step w c = (o, w') -> outcome_replies o = Some xs -> insync w' rest ->
                 match c with ASetMode _ | ASetRfc2428 _ => False | _ => True end ->
-                outcome_replies (fst (step w c)) = Some xs /\ Inv (snd (step w c)) rest /\ c_rfc2428 (w_cfg (snd (step w c))) = c_rfc2428 (w_cfg w)).
-  { intros o w' E Ho Is Hc. rewrite E. split; [exact Ho|]. cbn [snd].
-    apply (inv_after w w' c rest (or_intror I) Hd Hm Ht Hc); [rewrite E; reflexivity|exact Is]. }
+                c_type (w_cfg w') = next_type (c_type (w_cfg w)) c xs ->
+                outcome_replies (fst (step w c)) = Some xs /\ Inv (snd (step w c)) rest /\
+                c_rfc2428 (w_cfg (snd (step w c))) = c_rfc2428 (w_cfg w) /\
+                c_type (w_cfg (snd (step w c))) = next_type (c_type (w_cfg w)) c xs).
+  { intros o w' E Ho Is Hc Hty. pose proof (inv_after w c rest Hd Hm Ht Hc) as IA. rewrite E in *. cbn [fst snd] in *.
+    destruct (IA Is) as (I1 & I2). auto. }
   pose proof Hi as (Hr & Hp & Hc).
   inversion S; subst; cbn [app] in *.
-  - destruct (simple_call w verb arg r rest x Hr Hp Hc H0 H) as (w' & E & A & B & C & _).
-    apply (Fin _ w' E eq_refl); [exact (conj A (conj B C))|exact I].
-  - destruct (set_type_call w t r rest x Hr Hp Hc H) as (w' & E & A & B & C & _).
-    apply (Fin _ w' E eq_refl); [exact (conj A (conj B C))|exact I].
+  - destruct (simple_call w verb arg r rest x Hr Hp Hc H0 H) as (w' & E & A & B & C & Cf & _).
+    apply (Fin _ w' E eq_refl); [exact (conj A (conj B C))|exact I|rewrite Cf; reflexivity].
+  - destruct (set_type_call w t0 r rest x Hr Hp Hc H) as (w' & E & A & B & C & Ty & _).
+    apply (Fin _ w' E eq_refl); [exact (conj A (conj B C))|exact I|exact Ty].
+  - destruct (login_call_exact w u pw rs xs0 rest ex Hi H1 H H0) as (w' & E & Is & Cf & _); [rewrite Ht; exact H2|exact H3|].
+    apply (Fin _ w' E eq_refl Is I). rewrite Cf. reflexivity.
   - destruct (rename_call w a b r1 rest x1 Hr Hp Hc H1 H H0) as (R1 & _).
-    destruct (R1 H2) as (w' & E & A & B & C & _).
-    apply (Fin _ w' E eq_refl); [exact (conj A (conj B C))|exact I].
+    destruct (R1 H2) as (w' & E & A & B & C & Cf & _).
+    apply (Fin _ w' E eq_refl); [exact (conj A (conj B C))|exact I|rewrite Cf; reflexivity].
   - destruct (rename_call w a b r1 (r2 :: rest) x1 Hr Hp Hc H1 H H0) as (_ & R2).
-    destruct (R2 H2 r2 rest x2 eq_refl H3) as (w' & E & A & B & C & _).
-    apply (Fin _ w' E eq_refl); [exact (conj A (conj B C))|exact I].
-  - destruct (download_passive_complete w path r1 r2 rest x1 x2 x3 ip port Hi Hd Hm Ht H H0 H1 H2 H3 H4 H5) as (w' & E & Is & _).
-    apply (Fin _ w' E eq_refl Is I).
-  - destruct (upload_passive_complete w u path chunks r1 r2 rest x1 x2 x3 ip port Hi Hd Hm Ht H H0 H1 H2 H3 H4) as (w' & E & Is & _).
-    apply (Fin _ w' E eq_refl Is I).
-  - destruct (refused_at_passive_setup w RETR_ path (mkIo cb (mkSink f O) []) r1 rest x1 Hr Hp Hd Hc H0 Hm H1 H) as (w' & E & A & B & C & _).
+    destruct (R2 H2 r2 rest x2 eq_refl H3) as (w' & E & A & B & C & Cf & _).
+    apply (Fin _ w' E eq_refl); [exact (conj A (conj B C))|exact I|rewrite Cf; reflexivity].
+  - destruct (download_passive_complete w path r1 r2 rest x1 x2 x3 ip port Hi Hd Hm Ht H H0 H1 H2 H3 H4 H5) as (w' & E & Is & _ & Cf & _).
+    apply (Fin _ w' E eq_refl Is I). rewrite Cf. reflexivity.
+  - destruct (upload_passive_complete w u path chunks r1 r2 rest x1 x2 x3 ip port Hi Hd Hm Ht H H0 H1 H2 H3 H4) as (w' & E & Is & _ & Cf & _).
+    apply (Fin _ w' E eq_refl Is I). rewrite Cf. reflexivity.
+  - destruct (refused_at_passive_setup w RETR_ path (mkIo cb (mkSink f O) []) r1 rest x1 Hr Hp Hd Hc H0 Hm H1 H) as (w' & E & A & B & C & _ & Cf & _).
     change (run _ (set_io w (mkIo cb (mkSink f O) []))) with (step w (ADownload path cb f)) in E.
-    apply (Fin _ w' E eq_refl); [exact (conj A (conj B C))|exact I].
+    apply (Fin _ w' E eq_refl); [exact (conj A (conj B C))|exact I|rewrite Cf; reflexivity].
   - destruct (refused_at_transfer_command_passive w RETR_ path (mkIo cb (mkSink f O) []) (fun acc => PumpIn (fun _ => finish_transfer acc)) r1 r2 rest x1 x2 ip port
-                Hi Hd Hm H H0 H1 H2 H3 H4 H5) as (w' & E & Is & _).
+                Hi Hd Hm H H0 H1 H2 H3 H4 H5) as (w' & E & Is & _ & Cf & _).
     change (run _ (set_io w (mkIo cb (mkSink f O) []))) with (step w (ADownload path cb f)) in E.
-    apply (Fin _ w' E eq_refl Is I).
+    apply (Fin _ w' E eq_refl Is I). rewrite Cf. reflexivity.
   - destruct (refused_at_transfer_command_passive w (upverb_bytes u) path (mkIo cb (mkSink None O) chunks) (fun acc => PumpOut (fun _ => finish_transfer acc)) r1 r2 rest x1 x2 ip port
-                Hi Hd Hm H H0 H1 H2 H3 H4 H5) as (w' & E & Is & _).
+                Hi Hd Hm H H0 H1 H2 H3 H4 H5) as (w' & E & Is & _ & Cf & _).
     change (run _ (set_io w (mkIo cb (mkSink None O) chunks))) with (step w (AUpload u path chunks cb)) in E.
-    apply (Fin _ w' E eq_refl Is I).
-  - destruct (list_passive_complete w path names r1 r2 rest x1 x2 x3 ip port Hi Hd Hm Ht H H0 H1 H2 H3 H4 H5) as (w' & E & Is & _).
-    apply (Fin _ w' E eq_refl Is I).
+    apply (Fin _ w' E eq_refl Is I). rewrite Cf. reflexivity.
+  - destruct (list_passive_complete w path names r1 r2 rest x1 x2 x3 ip port Hi Hd Hm Ht H H0 H1 H2 H3 H4 H5) as (w' & E & Is & _ & Cf & _).
+    apply (Fin _ w' E eq_refl Is I). rewrite Cf. reflexivity.
   - destruct (H6 (c_type (w_cfg w))) as (ev & pr & answers' & answers'' & DR & NT & PL).
     destruct (download_cancelled_passive w path answers answers' answers'' ev r1 r2 r3 rest x1 x2 x4 x5 ip port pr
-                Hi Hd Hm Ht H H0 H1 H2 H3 H4 H5 DR NT PL H7 H8 H9 H10 H11) as (w' & E & Is & _).
-    apply (Fin _ w' E eq_refl Is I).
+                Hi Hd Hm Ht H H0 H1 H2 H3 H4 H5 DR NT PL H7 H8 H9 H10 H11) as (w' & E & Is & _ & Cf & _).
+    apply (Fin _ w' E eq_refl Is I). rewrite Cf. reflexivity.
 Qed.
 
-(* a history: calls, the reactions each of them consumes, the outcomes *)
-Inductive history (rfc : bool) : list api -> list reaction -> list (list reply) -> Prop :=
-| h_nil : history rfc [] [] []
-| h_cons c rs xs cs rss xss : serves rfc c rs xs -> history rfc cs rss xss -> history rfc (c :: cs) (rs ++ rss) (xs :: xss).
+(* a history: calls, the reactions each of them consumes, the replies each of them returns; the transfer type is
+   threaded through (an acknowledged TYPE changes what login and the transfers do afterwards) *)
+Inductive history (rfc : bool) : ttype -> list api -> list reaction -> list (list reply) -> Prop :=
+| h_nil t : history rfc t [] [] []
+| h_cons t c rs xs cs rss xss :
+    serves rfc t c rs xs -> history rfc (next_type t c xs) cs rss xss -> history rfc t (c :: cs) (rs ++ rss) (xs :: xss).
 
-(* C02: every call of every such history returns exactly the replies to its own commands, and the session is in step at
-   the end (hence after every prefix) *)
-Lemma lockstep_mixed_aux rfc cs rss xss : history rfc cs rss xss ->
-  forall w rest, c_rfc2428 (w_cfg w) = rfc -> Inv w (rss ++ rest) ->
+Lemma lockstep_mixed_aux rfc t cs rss xss : history rfc t cs rss xss ->
+  forall w rest, c_rfc2428 (w_cfg w) = rfc -> c_type (w_cfg w) = t -> Inv w (rss ++ rest) ->
   map outcome_replies (fst (steps w cs)) = map Some xss /\ Inv (snd (steps w cs)) rest.
 Proof.
-  induction 1 as [|c rs xs cs rss xss S Hh IH]; intros w rest Hrfc Hi.
+  induction 1 as [t|t c rs xs cs rss xss S Hh IH]; intros w rest Hrfc Hty Hi.
   - cbn. split; [reflexivity|exact Hi].
-  - rewrite <- app_assoc in Hi. subst rfc.
-    destruct (served_step w c rs (rss ++ rest) xs Hi S) as (E1 & I1 & R1).
-    cbn [steps]. destruct (step w c) as [o1 w1] eqn:St. cbn [fst snd] in E1, I1, R1.
-    destruct (IH w1 rest R1 I1) as (E2 & I2).
+  - rewrite <- app_assoc in Hi. subst rfc t.
+    destruct (served_step w c rs (rss ++ rest) xs Hi S) as (E1 & I1 & R1 & T1).
+    cbn [steps]. destruct (step w c) as [o1 w1] eqn:St. cbn [fst snd] in E1, I1, R1, T1.
+    destruct (IH w1 rest R1 T1 I1) as (E2 & I2).
     destruct (steps w1 cs) as [os2 w2]. cbn [fst snd] in E2, I2.
     destruct o1; try discriminate; cbn [fst snd map]; rewrite E1, E2; auto.
 Qed.
@@ -162,9 +180,10 @@ Qed.
 (* C02: every call of every such history returns exactly the replies generated for its own commands, and the session
    is in step at the end (hence after every prefix: a prefix of a history is a history) *)
 Theorem lockstep_mixed_histories : forall cs rss xss w rest,
-  Inv w (rss ++ rest) -> history (c_rfc2428 (w_cfg w)) cs rss xss ->
+  Inv w (rss ++ rest) -> history (c_rfc2428 (w_cfg w)) (c_type (w_cfg w)) cs rss xss ->
   map outcome_replies (fst (steps w cs)) = map Some xss /\ Inv (snd (steps w cs)) rest.
-Proof. intros cs rss xss w rest Hi Hh. exact (lockstep_mixed_aux _ cs rss xss Hh w rest eq_refl Hi). Qed.
+Proof. intros cs rss xss w rest Hi Hh. exact (lockstep_mixed_aux _ _ cs rss xss Hh w rest eq_refl eq_refl Hi). Qed.
+
 
 (* non-vacuity: NOOP, a download (EPSV), TYPE A, a refused upload, PWD - one history, in step throughout *)
 Definition ex_r (c : N) (t : bytes) : reaction := mkR [RReply (mkReply c t)] [] false false true no_plan.
@@ -176,16 +195,16 @@ Definition ex_calls : list api :=
   [ASimple [78;79;79;80] None; ADownload [102] None None; ASetType TAscii; AUpload UStor [103] [[9]] None; ASimple [80;87;68] None].
 Definition ex_script : list reaction :=
   [ex_r 200 []] ++ [ex_epsv; ex_retr] ++ [ex_r 200 [65]] ++ [ex_epsv; ex_r 550 []] ++ [ex_r 257 []] ++ [].
-Example ex_history : history true ex_calls ex_script
+Example ex_history : history true TBinary ex_calls ex_script
   [[mkReply 200 []]; [mkReply 229 [40;124;124;124;53;124;41]; mkReply 150 []; mkReply 226 []]; [mkReply 200 [65]];
    [mkReply 229 [40;124;124;124;53;124;41]; mkReply 550 []]; [mkReply 257 []]].
 Proof.
   unfold ex_calls, ex_script.
   apply h_cons; [apply sv_simple; [exact I|repeat split; discriminate]|].
-  apply h_cons; [eapply (sv_download true [102] ex_epsv ex_retr _ _ _ None 5); try reflexivity;
+  apply h_cons; [eapply (sv_download true _ [102] ex_epsv ex_retr _ _ _ None 5); try reflexivity;
                  repeat split; try reflexivity; discriminate|].
   apply h_cons; [apply sv_type; repeat split; discriminate|].
-  apply h_cons; [eapply (sv_upload_refused_at_command true UStor [103] [[9]] None ex_epsv (ex_r 550 []) _ _ None 5); try reflexivity;
+  apply h_cons; [eapply (sv_upload_refused_at_command true _ UStor [103] [[9]] None ex_epsv (ex_r 550 []) _ _ None 5); try reflexivity;
                  repeat split; try reflexivity; discriminate|].
   apply h_cons; [apply sv_simple; [exact I|repeat split; discriminate]|].
   apply h_nil.
